@@ -27,6 +27,7 @@ func init() {
 	reg("C17", "C17.R6", "E2", "match rules gating a mask: event data is lower-cased whenever the rule is case-insensitive", 2, ruleMatchRuleCaseFold)
 	reg("C17", "C17.R4", "E2", "the traversal recurses into every element and reaches every string/number leaf", 4, ruleMaskTraversalCovers)
 	reg("C17", "C17.R7", "E2+E6", "process/ignore field lists: the list node handed to a child is chosen for that child, never left over from a sibling", 3, ruleMaskFieldListPerChild)
+	reg("C17", "C17.R8", "E1", "the process/ignore field tree only grows while it is built: no entry of one list is removed for another", 1, ruleFieldTreeOnlyGrows)
 }
 
 type maskShape struct {
@@ -1383,4 +1384,42 @@ func ruleMaskFieldListPerChild(c *Ctx, r *Rule) {
 		r.Ob(bad == "", fmt.Sprintf("%s|descend#%d|own-list-node", c.fnName(fn), n), ci.Pos(), "the list node handed to a child is chosen for that child (its own entry, the empty node, or the parent's node when nothing is listed below it)"+ifs(bad != "", ": "+bad))
 	}
 	r.Ob(n >= 2, c.fnName(fn)+"|descents", fn.Pos(), fmt.Sprintf("%d recursive descents examined", n))
+}
+
+// ruleFieldTreeOnlyGrows: all process / ignore lists of the mask action (every mask's and the plugin's)
+// are inserted into ONE tree. Inserting a path must never remove what another list put below it: no
+// clear / delete on a node's children, and the children map is assigned only when it is created.
+func ruleFieldTreeOnlyGrows(c *Ctx, r *Rule) {
+	n := 0
+	for _, fn := range c.ModFuncs {
+		if c.pkgOf(fn) != "plugin/action/mask" {
+			continue
+		}
+		for _, b := range fn.Blocks {
+			for _, in := range b.Instrs {
+				switch x := in.(type) {
+				case *ssa.Call:
+					bi, ok := x.Call.Value.(*ssa.Builtin)
+					if !ok || (bi.Name() != "clear" && bi.Name() != "delete") || len(x.Call.Args) == 0 {
+						continue
+					}
+					if _, f, _, okf := loadedField(stripConv(x.Call.Args[0])); okf && f == "children" {
+						n++
+						r.Ob(false, c.fnName(fn)+"|"+bi.Name()+"-children", x.Pos(), "entries of the shared field tree are never removed ("+bi.Name()+" on a node's children drops the deeper paths that another list — another mask, or the plugin — inserted earlier)")
+					}
+				case *ssa.Store:
+					o, f, _, okf := fieldOf(x.Addr)
+					if !okf || o == nil || o.Obj().Name() != "fieldMasksNode" || f != "children" {
+						continue
+					}
+					n++
+					r.Inst(1)
+					_, isMake := stripConv(x.Val).(*ssa.MakeMap)
+					r.Ob(isMake, fmt.Sprintf("%s|children-assigned#%d", c.fnName(fn), n), x.Pos(), "a node's children map is assigned only when it is created")
+				}
+			}
+		}
+	}
+	r.Inst(1)
+	r.Ob(n >= 1, "mask|field-tree-writers", token.NoPos, fmt.Sprintf("%d writers of fieldMasksNode.children examined", n))
 }
